@@ -19,6 +19,9 @@ func NewStubs(cfg Config) Printer {
 }
 
 func (s *stubs) Print(f *ir.File) ([]byte, error) {
+	// Start from a clean state, so that a printer can be used more than once.
+	*s = stubs{cfg: s.cfg}
+
 	s.Comment(s.cfg.GeneratedWarning())
 
 	if len(f.Constraints) > 0 {
